@@ -252,11 +252,78 @@ def r17d(ctx):
                           f"and the search converges to a more expensive one (e.g. [2,2] held, [0,10] -> [6,6] resolved last: answer 6)")
 
 
+def r17e(ctx):
+    m = ctx.model
+    ctx.rule("R17e", "the search's own progress flag and pruning are exact at the edges: (1) the goal branch of tighten_bounds "
+                     "answers True when the search's bounds moved (its return is or-ed with a comparison against the bounds "
+                     "taken on entry), because an enclosing search re-keys a candidate only on True; (2) a candidate is pruned "
+                     "against the caller's initial bounds only when it is strictly worse (upper < lower), never on a tie; (3) "
+                     "make_distinct keeps tightening an item while it is not finite and still makes progress")
+    q = m.need_class("IterativeTighteningSearch")
+    f = m.method(q, "tighten_bounds")
+    entry = [a.targets[0].id for a in walk_no_nested(f.node) if isinstance(a, ast.Assign) and isinstance(a.targets[0], ast.Name)
+             and ast.unparse(a.value).replace(" ", "") == "self.bounds()"]
+    n = 0
+    for br in walk_no_nested(f.node):
+        if isinstance(br, ast.If) and ast.unparse(br.test).replace(" ", "") == "self.goal_test()":
+            for r in [x for s_ in br.body for x in ast.walk(s_) if isinstance(x, ast.Return)]:
+                n += 1
+                ok = isinstance(r.value, ast.BoolOp) and isinstance(r.value.op, ast.Or) and any(
+                    isinstance(v, ast.Compare) and any(e in ast.unparse(v) for e in entry) and "self.bounds()" in ast.unparse(v)
+                    for v in r.value.values)
+                if ok:
+                    ctx.proved("R17e", f.file, "IterativeTighteningSearch.tighten_bounds", r, "goal reports progress",
+                               "the goal branch answers True whenever the search's bounds moved since entry")
+                else:
+                    ctx.violation("R17e", f.file, "IterativeTighteningSearch.tighten_bounds", r, "goal reports progress",
+                                  f"`{norm(r, 40)}` in the goal branch hands back the best candidate's own flag: a search whose bounds "
+                                  f"went from [-inf, inf] to [3, 3] in this call answers False, an enclosing search (which re-keys a "
+                                  f"candidate only on True) keeps the stale interval and can end on a non-minimal candidate")
+    ctx.floor("R17e", n, 1, "returns of the goal branch")
+    ub = m.method(q, "_update_bounds")
+    k = 0
+    for i in walk_no_nested(ub.node):
+        if isinstance(i, ast.If) and "self.initial_bounds" in ast.unparse(i.test) and any(
+                isinstance(c, ast.Call) and isinstance(c.func, ast.Attribute) and c.func.attr == "_delete_node" for s_ in i.body for c in ast.walk(s_)):
+            for t in [i.test]:
+                k += 1
+                txt = ast.unparse(t).replace(" ", "")
+                if ".dominates(" in txt or "<=" in txt or ">=" in txt:
+                    ctx.violation("R17e", ub.file, "IterativeTighteningSearch._update_bounds", t, "strict pruning against initial bounds",
+                                  f"`{norm(t, 70)}` prunes a candidate whose lower bound merely equals the caller's upper bound "
+                                  f"(dominates() includes equality): with initial_bounds=Range(0, 10) and an optimum of exactly 10 the "
+                                  f"optimum is deleted and the search ends on a worse candidate or on none")
+                else:
+                    ctx.proved("R17e", ub.file, "IterativeTighteningSearch._update_bounds", t, "strict pruning against initial bounds",
+                               f"`{norm(t, 70)}` is strict")
+    ctx.floor("R17e", k, 1, "prunings against the initial bounds")
+    md = m.func("graphtage.bounds.make_distinct")
+    j = 0
+    for i in walk_no_nested(md.node):
+        if isinstance(i, ast.If) and "finite" in ast.unparse(i.test) and isinstance(i.test, ast.UnaryOp):
+            inner_raise = [x for s_ in i.body for x in ast.walk(s_) if isinstance(x, ast.Raise)]
+            if not inner_raise:
+                continue
+            from ..astx import ancestors as _anc
+            if any(isinstance(a, ast.If) and "finite" in ast.unparse(a.test) for a in _anc(i) if a is not i):
+                continue        # the inner re-test that raises; the obligation sits on the outer guard
+            j += 1
+            loops = [w for w in i.body if isinstance(w, ast.While) and ".tighten_bounds()" in ast.unparse(w.test) and "finite" in ast.unparse(w.test)]
+            if loops:
+                ctx.proved("R17e", md.file, "make_distinct", loops[0], "finite before separating", "tightens while not finite and progressing")
+            else:
+                ctx.violation("R17e", md.file, "make_distinct", i, "finite before separating",
+                              "make_distinct calls tighten_bounds() once on an item whose bounds are not finite and raises ValueError if an "
+                              "end is still infinite, although further calls would make it finite ([0, inf] -> [2, inf] -> [2, 6])")
+    ctx.floor("R17e", j, 1, "finiteness guards of make_distinct")
+
+
 def run(ctx):
     r17a(ctx)
     r17b(ctx)
     r17c(ctx)
     r17d(ctx)
+    r17e(ctx)
     from .c05 import r05c
     r05c(ctx)     # candidates taken from the one-shot iterator are retained on a heap on every path
     ctx.assume("that the search ends with a minimum, that ordering is by final cost and that all of this terminates for "
